@@ -7,8 +7,6 @@ package ice
 // symbolic.  Every numeric leaf is symbolic in a small range (single-byte
 // varints, so no extra paths); one leaf per path, selected by choice, is wide.
 
-import "fmt"
-
 type vpGen struct {
 	wide     int // index of the wide leaf, -1 = none
 	leaf     int
@@ -118,7 +116,9 @@ func (g *vpGen) field(name string, terms ...*vpTerm) *vpField {
 }
 
 func (g *vpGen) idField(doc int) *vpField {
-	id := fmt.Sprintf("d%d", doc)
+	// (no fmt here: the engine summarises fmt.Sprintf as an opaque string, which
+	// would give every document the same _id)
+	id := "d" + vpItoa(doc)
 	f := &vpField{name: "_id", store: true, value: []byte(id), length: 1,
 		terms: []*vpTerm{{term: []byte(id), freq: 1}}}
 	return f
@@ -206,4 +206,16 @@ func vpFieldNames(batches ...[]*vpDoc) []string {
 		}
 	}
 	return out
+}
+
+func vpItoa(n int) string {
+	if n == 0 {
+		return "0"
+	}
+	var b []byte
+	for n > 0 {
+		b = append([]byte{byte('0' + n%10)}, b...)
+		n /= 10
+	}
+	return string(b)
 }
